@@ -7,7 +7,9 @@ import (
 	"go/types"
 	"sort"
 	"strings"
+	"unicode/utf8"
 
+	"golang.org/x/tools/go/ssa"
 	"golang.org/x/tools/go/types/typeutil"
 )
 
@@ -58,8 +60,10 @@ func checkC15(c *Ctx, r *Report) {
 	checkECIParse(c, r)
 	checkECIUnknownIsFormatError(c, r)
 	checkECIEmission(c, r)
+	checkGuessUTF8(c, r)
+	checkByteSegmentTranscode(c, r)
 	checkQRSegments(c, r) // Kanji mode (chosen under a Shift_JIS hint): the double-byte arithmetic of writer and reader are inverse
-	r.Note("not decided: charset guessing heuristics over payload statistics; per-charset transcoding (golang.org/x/text)")
+	r.Note("not decided: charset guessing over whole texts (only single well-formed multi-byte characters, S-GUESS); per-charset transcoding (golang.org/x/text)")
 }
 
 func checkECIRegistry(c *Ctx, r *Report) {
@@ -605,4 +609,199 @@ func checkECIEmission(c *Ctx, r *Report) {
 		names = append(names, e.name)
 	}
 	sort.Strings(names)
+}
+
+// S-GUESS: text without a hint that is UTF-8 is read as UTF-8
+func checkGuessUTF8(c *Ctx, r *Report) {
+	r.Rule("S-GUESS", "StringUtils_guessCharset, folded from source without hints, answers UTF-8 for every text consisting of one well-formed multi-byte UTF-8 character - every lead byte C2..F4, continuation bytes from the classes 80, 8F, 90, 9F, A0, BF that keep the sequence well formed - alone, between ASCII letters, and repeated: the clause 'without a hint, UTF-8 text decodes as itself' needs at least that (whole texts are beyond a static argument: the guess is a heuristic over byte statistics)", 1)
+	fd, p := c.funcDeclOf("common", "StringUtils_guessCharset")
+	key := "common.StringUtils_guessCharset/utf8"
+	if fd == nil {
+		r.AnchorLost("S-GUESS", key, "function not found")
+		return
+	}
+	r.Analysed(key)
+	env := map[types.Object]*Val{}
+	for _, n := range []string{"StringUtils_SHIFT_JIS_CHARSET", "StringUtils_PLATFORM_DEFAULT_ENCODING", "StringUtils_ASSUME_SHIFT_JIS"} {
+		if o := c.lookupObj("common", n); o != nil {
+			if n == "StringUtils_ASSUME_SHIFT_JIS" {
+				continue
+			}
+			env[o] = vstr("var:" + n)
+		}
+	}
+	conts := []int{0x80, 0x8F, 0x90, 0x9F, 0xA0, 0xBF}
+	var seqs [][]byte
+	for lead := 0xC2; lead <= 0xF4; lead++ {
+		n := 1
+		if lead >= 0xE0 {
+			n = 2
+		}
+		if lead >= 0xF0 {
+			n = 3
+		}
+		var rec func(cur []byte)
+		rec = func(cur []byte) {
+			if len(cur) == n+1 {
+				if utf8.Valid(cur) {
+					seqs = append(seqs, append([]byte{}, cur...))
+				}
+				return
+			}
+			for _, ct := range conts {
+				rec(append(cur, byte(ct)))
+			}
+		}
+		rec([]byte{byte(lead)})
+	}
+	bad := ""
+	folds := 0
+	for _, sq := range seqs {
+		for variant := 0; variant < 3 && bad == ""; variant++ {
+			var text []byte
+			switch variant {
+			case 0:
+				text = sq
+			case 1:
+				text = append(append([]byte("ab"), sq...), []byte("cd")...)
+			case 2:
+				text = append(append(append([]byte{}, sq...), ' '), sq...)
+			}
+			lst := &Val{K: VList}
+			for _, b := range text {
+				lst.L = append(lst.L, &Val{K: VInt, I: int64(b), T: types.Typ[types.Byte]})
+			}
+			h := &rpf{unroll: 1000, env: env}
+			h.selHook = func(rr *rpf, sel *ast.SelectorExpr) (*Val, bool) {
+				if id, ok := sel.X.(*ast.Ident); ok {
+					if pn, isPkg := rr.p.TypesInfo.Uses[id].(*types.PkgName); isPkg && !strings.HasPrefix(pn.Imported().Path(), modPath) {
+						if _, isVar := rr.p.TypesInfo.Uses[sel.Sel].(*types.Var); isVar {
+							return vstr(pn.Imported().Name() + "." + sel.Sel.Name), true
+						}
+					}
+				}
+				return nil, false
+			}
+			h.callHook = errCtorHook
+			res, err := c.rpfCall(fd, p, []*Val{lst, {K: VNil}}, h)
+			folds++
+			if err != nil {
+				bad = "?" + err.Error()
+				break
+			}
+			if len(res) != 2 || res[1].K != VNil || res[0].K != VStr || res[0].S != "unicode.UTF8" {
+				got := "an error"
+				if len(res) == 2 && res[0].K == VStr {
+					got = res[0].S
+				}
+				bad = fmt.Sprintf("the bytes % x (the character %q%s) are guessed as %s, not UTF-8", text, string(sq), []string{"", " between ASCII letters", " twice"}[variant], got)
+			}
+		}
+		if bad != "" {
+			break
+		}
+	}
+	r.Extra("S-GUESS sequences", len(seqs))
+	r.Extra("S-GUESS folds", folds)
+	reportFold(r, c, "S-GUESS", key, fd.Pos(), bad)
+}
+
+// M-TRANSCODE: byte segments reach the text only through the decoder of the selected character set
+func checkByteSegmentTranscode(c *Ctx, r *Report) {
+	r.Rule("M-TRANSCODE", "DecodedBitStreamParser_decodeByteSegment: on every return without error the text is the first result of transform.Append(dec, result, readBytes), where dec is NewDecoder() of the character set selected for the segment - the current ECI's charset when one is in force, otherwise what StringUtils_guessCharset(readBytes, hints) answers - and readBytes are the count bytes read from the stream; no other value reaches the returned text", 1)
+	f := c.ssaFunc("qrcode/decoder", "DecodedBitStreamParser_decodeByteSegment")
+	key := "qrcode/decoder.DecodedBitStreamParser_decodeByteSegment"
+	if f == nil {
+		r.AnchorLost("M-TRANSCODE", key, "function not found")
+		return
+	}
+	r.Analysed(key)
+	bad := ""
+	isCallTo := func(v ssa.Value, pkgSuffix, name string) *ssa.Call {
+		call, ok := v.(*ssa.Call)
+		if !ok {
+			return nil
+		}
+		if g := call.Call.StaticCallee(); g != nil && g.Name() == name && g.Pkg != nil && strings.HasSuffix(g.Pkg.Pkg.Path(), pkgSuffix) {
+			return call
+		}
+		return nil
+	}
+	nOK := 0
+	for _, ret := range returnsOf(f) {
+		if len(ret.Results) != 3 {
+			continue
+		}
+		if cst, ok := unspill(ret.Results[2], ret).(*ssa.Const); !ok || !cst.IsNil() {
+			continue // an error return
+		}
+		v := unspill(ret.Results[0], ret)
+		ex, ok := v.(*ssa.Extract)
+		var app *ssa.Call
+		if ok && ex.Index == 0 {
+			app = isCallTo(ex.Tuple, "golang.org/x/text/transform", "Append")
+		}
+		if app == nil {
+			bad = fmt.Sprintf("the return at %s delivers text that is not the result of transform.Append", c.pos(ret.Pos()))
+			break
+		}
+		// transform.Append(dec, result, readBytes)
+		args := app.Call.Args
+		if p0, isP := args[1].(*ssa.Parameter); !isP || p0 != f.Params[1] {
+			bad = "transform.Append does not extend the text handed in"
+			break
+		}
+		if _, isMake := args[2].(*ssa.MakeSlice); !isMake {
+			if sl, isSl := args[2].(*ssa.Slice); !isSl || !func() bool { _, a := sl.X.(*ssa.Alloc); _, m := sl.X.(*ssa.MakeSlice); return a || m }() {
+				bad = "transform.Append is not given the bytes read in this call"
+				break
+			}
+		}
+		// dec = MakeInterface / ChangeInterface of encoding.NewDecoder()
+		dec := args[0]
+		for {
+			if mi, isMI := dec.(*ssa.MakeInterface); isMI {
+				dec = mi.X
+				continue
+			}
+			if ci, isCI := dec.(*ssa.ChangeInterface); isCI {
+				dec = ci.X
+				continue
+			}
+			break
+		}
+		dcall, isCall := dec.(*ssa.Call)
+		if !isCall || !dcall.Call.IsInvoke() || dcall.Call.Method.Name() != "NewDecoder" {
+			bad = "the transformer is not NewDecoder() of the selected character set"
+			break
+		}
+		enc := dcall.Call.Value
+		phi, isPhi := enc.(*ssa.Phi)
+		if !isPhi || len(phi.Edges) != 2 {
+			bad = "the character set is not selected between the ECI in force and the guess"
+			break
+		}
+		seenGuess, seenECI := false, false
+		for _, e := range phi.Edges {
+			if ex2, isEx := e.(*ssa.Extract); isEx && ex2.Index == 0 {
+				if g := isCallTo(ex2.Tuple, "/common", "StringUtils_guessCharset"); g != nil {
+					seenGuess = true
+				}
+			}
+			if gc, isC := e.(*ssa.Call); isC {
+				if g := gc.Call.StaticCallee(); g != nil && g.Name() == "GetCharset" && len(gc.Call.Args) == 1 && gc.Call.Args[0] == ssa.Value(f.Params[3]) {
+					seenECI = true
+				}
+			}
+		}
+		if !seenGuess || !seenECI {
+			bad = fmt.Sprintf("character set sources: guess %v, ECI in force %v - both are needed", seenGuess, seenECI)
+			break
+		}
+		nOK++
+	}
+	if bad == "" && nOK == 0 {
+		bad = "no successful return found"
+	}
+	r.Check(bad == "", "M-TRANSCODE", key, c.pos(f.Pos()), bad)
 }
